@@ -161,9 +161,11 @@ class RayMeshIntersector:
         current = np.ones(len(ray_origins), dtype=bool)
 
         if multiple_hits or return_locations:
-            # how much to offset ray to transport to the other side of face
+            # how much to offset ray to transport to the other side of face:
+            # a fixed distance in the scaled frame embree traces in, which is
+            # `_ray_offset_factor / self._scale` in the units of the mesh
             distance = np.clip(
-                _ray_offset_factor * self._scale, _ray_offset_floor, np.inf
+                _ray_offset_factor / self._scale, _ray_offset_floor, np.inf
             )
             ray_offsets = ray_directions * distance
 
